@@ -442,7 +442,7 @@ static Plan generate(uint64_t seed, uint64_t run, const std::map<std::string, st
     for (int t = 0; t < w; t++) {
       p.set("ut" + std::to_string(t), r.below(2));
       auto h = gen_history(r, r.range(0, 3));
-      if (r.chance(1, 5)) {
+      if (r.chance(1, 5) && maxthreads < 100) {
         // a value of several thousand bytes (block-wise or buffered processing inside a setter) with limit values around
         // its raw and its encoded size: the limit may then change while the value is still being worked on
         static const char* const unit[] = {"a", "ab c", "\xc3\xa9", "x%20", "'\"<"};
@@ -485,7 +485,7 @@ static Plan generate(uint64_t seed, uint64_t run, const std::map<std::string, st
     }
     std::vector<uint32_t> vv(vals.begin(), vals.end());
     // one administrator, or (one run in three, if the thread budget allows) two that set the limit concurrently
-    const int admins = (w + 2 <= maxthreads && r.chance(1, 3)) ? 2 : 1;
+    const int admins = (w + 2 <= maxthreads && r.chance(1, 2)) ? 2 : 1;
     p.set("admins", uint64_t(admins));
     for (int a = 0; a < admins; a++) {
       int k = admins == 2 ? r.range(1, 2) : r.range(2, 6);
